@@ -228,7 +228,10 @@ theorem c11_zero_required (fty : FieldTy) (n : Nat) :
 
 /-! ### the option is absent -/
 
-/-- a scalar default of the field's own type (for an enum field: a member) -/
+/-- a scalar default of the field's own type.  Only enum fields are constrained (a member): for the
+    other scalar types `argDefault`/`postprocess` are the identity on EVERY value, so the theorems
+    below hold there even for an ill-typed default (an int field with a str default gets that str
+    everywhere — which is also what the code does). -/
 def WellTypedScalar (t : ItemTy) (s : Scalar) : Prop :=
   ∀ ms, t = .enum ms → ∃ nm, s = .enum nm ∧ nm ∈ ms
 
@@ -447,6 +450,10 @@ theorem c11_bare_item_singleton (fty : FieldTy) (w : Str) (l : Lit) (s : Scalar)
   simp [parseContainerTok, hw, hconv]
 
 /-- **whole containers**: every destination of a list / tuple field receives a whole container
+    of the field's kind.  (This statement alone speaks about the KIND of what arrives; WHICH
+    container arrives is `c11_n` / `c11_one` + `duplicate_n` / `shortcut_none_of_container` — the
+    parsed values are handed on unchanged — and `c11_absent_container` for the absent option; the
+    items are values of the item type by `parseContainerTok_typed`.)  In detail: every destination receives a whole container
     of the field's kind — with n tokens the i-th token's container, with one token that token's
     container (`c11_n`, `c11_one`), never an element of it. Any n, any number and shape of tokens. -/
 theorem c11_whole_containers (fty : FieldTy) (n : Nat) (src : DefaultSrc) (toks : List Tok)
@@ -505,6 +512,443 @@ theorem c11_whole_containers_absent (fty : FieldTy) (l : List Scalar) (n : Nat) 
   intro v hv
   exact (List.mem_replicate.mp hv).2
 
+/-! ### lengths: a successful run yields exactly one value per destination -/
+
+theorem elems_length (v : Val) : v.elems.length = v.len := by
+  cases v <;> simp [Val.elems, Val.len]
+
+theorem shortcut_some_length (fty : FieldTy) (n : Nat) (vs r : List Val)
+    (h : shortcut fty n vs = some r) : r.length = n := by
+  unfold shortcut at h
+  split at h
+  · split at h
+    · rename_i v
+      split at h
+      · rename_i hc
+        simp only [Option.some.injEq] at h
+        subst h
+        simp only [Bool.and_eq_true, decide_eq_true_eq] at hc
+        rw [elems_length]; exact hc.2
+      · cases h
+    · cases h
+  · cases h
+
+/-- whatever `duplicate_if_needed` returns has exactly n entries, so the `zip` with the
+    destinations (`take n` in the model) never drops or misses a destination -/
+theorem duplicate_length (fty : FieldTy) (n : Nat) (vs ws : List Val)
+    (h : duplicate fty n vs = .ok ws) : ws.length = n := by
+  unfold duplicate at h
+  cases hs : shortcut fty n vs with
+  | some r =>
+    rw [hs] at h
+    simp only [Except.ok.injEq] at h
+    subst h
+    exact shortcut_some_length fty n vs r hs
+  | none =>
+    rw [hs] at h
+    simp only at h
+    split at h
+    · rename_i hl
+      simp only [Except.ok.injEq] at h; subst h; exact hl
+    · split at h
+      · simp only [Except.ok.injEq] at h; subst h; simp
+      · cases h
+
+theorem distribute_length (fty : FieldTy) (n : Nat) (vs out : List Val)
+    (h : distribute fty n vs = .ok out) : out.length = n := by
+  unfold distribute at h
+  cases hd : duplicate fty n vs with
+  | error e => rw [hd] at h; cases h
+  | ok ws =>
+    rw [hd] at h
+    have hl := duplicate_length fty n vs ws hd
+    have := mapE_length _ _ _ h
+    rw [this, List.length_take, hl]; simp
+
+/-- **one value per destination**: every successful run — option given or absent, any field
+    type, any n — returns exactly n values -/
+theorem runField_length (fty : FieldTy) (n : Nat) (src : DefaultSrc) (arg : Option (List Tok))
+    (out : List Val) (h : runField fty n src arg = .ok out) : out.length = n := by
+  unfold runField at h
+  cases hs : setupDefault fty n src with
+  | error e => rw [hs] at h; cases h
+  | ok d =>
+    rw [hs] at h
+    cases arg with
+    | some toks =>
+      simp only at h
+      cases ha : argparseValues fty (isRequired src) toks with
+      | error e => rw [ha] at h; cases h
+      | ok vs => rw [ha] at h; exact distribute_length fty n vs out h
+    | none =>
+      simp only at h
+      cases d with
+      | none => cases h
+      | some dv => exact distribute_length fty n dv out h
+
+/-! ### valid tokens: the run SUCCEEDS -/
+
+/-- whatever the `type=` callable of the field accepts, `postprocess` accepts too -/
+theorem post_of_parse (fty : FieldTy) (tok : Tok) (v : Val) (h : parseTok fty tok = .ok v) :
+    ∃ v', postprocess fty v = .ok v' := by
+  cases fty with
+  | scalar t =>
+    cases t with
+    | enum ms =>
+      simp only [parseTok, parseScalarTok] at h
+      split at h
+      · rename_i hm
+        simp only [Except.ok.injEq] at h; subst h
+        exact ⟨.sc (.enum tok.render), by simp [postprocess, hm]⟩
+      · cases h
+    | int => exact ⟨v, rfl⟩
+    | float => exact ⟨v, rfl⟩
+    | str => exact ⟨v, rfl⟩
+    | bool => exact ⟨v, rfl⟩
+  | list t =>
+    obtain ⟨l, rfl⟩ := parseTok_container (.list t) rfl tok v h
+    exact ⟨_, post_mkContainer _ l rfl⟩
+  | tuple ts =>
+    obtain ⟨l, rfl⟩ := parseTok_container (.tuple ts) rfl tok v h
+    exact ⟨_, post_mkContainer _ l rfl⟩
+  | vtuple t =>
+    obtain ⟨l, rfl⟩ := parseTok_container (.vtuple t) rfl tok v h
+    exact ⟨_, post_mkContainer _ l rfl⟩
+
+theorem mapE_total {α β : Type} (f : α → Res β) (l : List α) (h : ∀ a ∈ l, ∃ b, f a = .ok b) :
+    ∃ r, mapE f l = .ok r := by
+  induction l with
+  | nil => exact ⟨[], rfl⟩
+  | cons a as ih =>
+    obtain ⟨b, hb⟩ := h a (by simp)
+    obtain ⟨r, hr⟩ := ih (fun x hx => h x (by simp [hx]))
+    exact ⟨b :: r, by simp [mapE, hb, hr]⟩
+
+/-- **one value, success**: a single token that `type=` accepts reaches every destination — no
+    assumption about `postprocess` -/
+theorem c11_one_ok (fty : FieldTy) (n : Nat) (src : DefaultSrc) (tok : Tok) (v : Val)
+    (d : Option (List Val)) (hn : 2 ≤ n) (hsetup : setupDefault fty n src = .ok d)
+    (hparse : parseTok fty tok = .ok v) :
+    ∃ v', postprocess fty v = .ok v' ∧ runField fty n src (some [tok]) = .ok (List.replicate n v') := by
+  obtain ⟨v', hv'⟩ := post_of_parse fty tok v hparse
+  exact ⟨v', hv', c11_one fty n src tok v v' d hn hsetup hparse hv'⟩
+
+/-- **n values, success**: n tokens that `type=` accepts give a result with n entries, the
+    i-th being the i-th token's value (`c11_n_index`) -/
+theorem c11_n_ok (fty : FieldTy) (n : Nat) (src : DefaultSrc) (toks : List Tok)
+    (d : Option (List Val)) (hn : 2 ≤ n) (hk : toks.length = n)
+    (hsetup : setupDefault fty n src = .ok d)
+    (hvalid : ∀ tok ∈ toks, ∃ v, parseTok fty tok = .ok v) :
+    ∃ out, runField fty n src (some toks) = .ok out ∧ out.length = n := by
+  obtain ⟨vs, hvs⟩ := mapE_total _ toks hvalid
+  rw [c11_n fty n src toks vs d hn hk hsetup hvs]
+  have hpost : ∀ v ∈ vs, ∃ v', postprocess fty v = .ok v' := by
+    intro v hv
+    obtain ⟨tok, _, hp⟩ := mapE_mem _ _ _ hvs v hv
+    exact post_of_parse fty tok v hp
+  obtain ⟨out, hout⟩ := mapE_total _ vs hpost
+  refine ⟨out, hout, ?_⟩
+  rw [mapE_length _ _ _ hout, mapE_length _ _ _ hvs, hk]
+
+/-! ### what a token denotes (closed forms for the word classes that need no lexical assumption) -/
+
+/-- a member NAME given to an enum field yields that member at every destination -/
+theorem c11_one_enum (ms : List Str) (w : Str) (n : Nat) (src : DefaultSrc) (d : Option (List Val))
+    (hn : 2 ≤ n) (hsetup : setupDefault (.scalar (.enum ms)) n src = .ok d) (hw : w ∈ ms) :
+    runField (.scalar (.enum ms)) n src (some [.bare w]) = .ok (List.replicate n (.sc (.enum w))) := by
+  apply c11_one _ n src _ (.sc (.str w)) _ d hn hsetup
+  · simp [parseTok, parseScalarTok, Tok.render, hw]
+  · simp [postprocess, hw]
+
+/-- a word that is no member name is rejected by argparse (`choices=`), whatever else is given -/
+theorem c11_enum_not_member (ms : List Str) (w : Str) (n : Nat) (src : DefaultSrc)
+    (d : Option (List Val)) (hsetup : setupDefault (.scalar (.enum ms)) n src = .ok d) (hw : w ∉ ms) :
+    runField (.scalar (.enum ms)) n src (some [.bare w]) = .error (.exit2 .choice) := by
+  simp [runField, hsetup, argparseValues, mapE, parseTok, parseScalarTok, Tok.render, hw]
+
+/-- a word of the boolean vocabulary (C12: `str2bool`) yields that boolean at every destination -/
+theorem c11_one_bool (w : Str) (b : Bool) (n : Nat) (src : DefaultSrc) (d : Option (List Val))
+    (hn : 2 ≤ n) (hsetup : setupDefault (.scalar .bool) n src = .ok d) (hw : str2bool w = some b) :
+    runField (.scalar .bool) n src (some [.bare w]) = .ok (List.replicate n (.sc (.bool b))) := by
+  apply c11_one _ n src _ (.sc (.bool b)) _ d hn hsetup
+  · simp [parseTok, parseScalarTok, Tok.render, convStr, hw]
+  · rfl
+
+/-- any string given to a str field is that string at every destination -/
+theorem c11_one_str (w : Str) (n : Nat) (src : DefaultSrc) (d : Option (List Val))
+    (hn : 2 ≤ n) (hsetup : setupDefault (.scalar .str) n src = .ok d) :
+    runField (.scalar .str) n src (some [.bare w]) = .ok (List.replicate n (.sc (.str w))) := by
+  apply c11_one _ n src _ (.sc (.str w)) _ d hn hsetup
+  · simp [parseTok, parseScalarTok, Tok.render, convStr]
+  · rfl
+
+theorem litWords_alpha (ws : List Str) (h : ∀ w ∈ ws, classify w = .alpha) :
+    litWords ws = .ok (if ws.isEmpty then some [] else none) := by
+  induction ws with
+  | nil => rfl
+  | cons w r ih =>
+    have hr := ih (fun x hx => h x (by simp [hx]))
+    simp only [litWords, h w (by simp), hr]
+    cases r <;> simp
+
+/-- **one container, three spellings**: for identifier-like words (member names, boolean words,
+    plain strings) `[a,b]`, `a,b` and the quoted `"a b"` denote the same container: the items
+    converted by the item parser, in order -/
+theorem parseContainerTok_alpha (fty : FieldTy) (ws : List Str) (ss : List Scalar) (hne : ws ≠ [])
+    (halpha : ∀ w ∈ ws, classify w = .alpha) (hconv : convStrs fty.itemTy ws = .ok ss) :
+    parseContainerTok fty (.bracket true ws) = .ok (mkContainer fty ss)
+    ∧ parseContainerTok fty (.comma ws) = .ok (mkContainer fty ss)
+    ∧ parseContainerTok fty (.spaced ws) = .ok (mkContainer fty ss) := by
+  have hlit := litWords_alpha ws halpha
+  have he : ws.isEmpty = false := by cases ws <;> simp_all
+  simp only [he, Bool.false_eq_true, ↓reduceIte] at hlit
+  have hfb : ∀ tok : Tok, tok.fallbackWords = ws → fallbackParse fty tok = .ok (mkContainer fty ss) := by
+    intro tok ht; simp [fallbackParse, ht, hconv]
+  refine ⟨?_, ?_, ?_⟩
+  · simp only [parseContainerTok, hlit]
+    apply hfb
+    cases ws with
+    | nil => exact absurd rfl hne
+    | cons a r => rfl
+  · simp only [parseContainerTok, hlit]
+    exact hfb _ rfl
+  · simp only [parseContainerTok]
+    exact hfb _ rfl
+
+/-! ### items are parsed by the container's item parser — and only the FIRST item type is used -/
+
+/-- the scalar is a value of the item type (for an enum: a member) -/
+def hasTy : ItemTy → Scalar → Bool
+  | .int, .int _ => true
+  | .float, .float _ => true
+  | .str, .str _ => true
+  | .bool, .bool _ => true
+  | .enum ms, .enum nm => decide (nm ∈ ms)
+  | _, _ => false
+
+theorem convStr_hasTy (t : ItemTy) (w : Str) (s : Scalar) (h : convStr t w = .ok s) : hasTy t s = true := by
+  cases t with
+  | str => simp only [convStr, Conv.ok.injEq] at h; subst h; rfl
+  | bool =>
+    simp only [convStr] at h
+    split at h
+    · simp only [Conv.ok.injEq] at h; subst h; rfl
+    · cases h
+  | enum ms =>
+    simp only [convStr] at h
+    split at h
+    · rename_i hm; simp only [Conv.ok.injEq] at h; subst h; simp [hasTy, hm]
+    · cases h
+  | int =>
+    simp only [convStr] at h
+    split at h
+    · simp only [Conv.ok.injEq] at h; subst h; rfl
+    · cases h
+    · cases h
+    · split at h <;> cases h
+  | float =>
+    simp only [convStr] at h
+    split at h
+    · split at h
+      · simp only [Conv.ok.injEq] at h; subst h; rfl
+      · cases h
+    · simp only [Conv.ok.injEq] at h; subst h; rfl
+    · cases h
+    · cases h
+    · split at h <;> cases h
+
+theorem convLit_hasTy (t : ItemTy) (l : Lit) (s : Scalar) (h : convLit t l = .ok (some s)) :
+    hasTy t s = true := by
+  cases t <;> cases l <;> simp only [convLit] at h
+  all_goals first
+    | (simp only [Conv.ok.injEq, Option.some.injEq] at h; subst h; rfl)
+    | (split at h
+       · simp only [Conv.ok.injEq, Option.some.injEq] at h; subst h; rfl
+       · cases h)
+    | cases h
+    | (simp at h)
+
+theorem convStrs_hasTy (t : ItemTy) (ws : List Str) (ss : List Scalar) (h : convStrs t ws = .ok ss) :
+    ∀ s ∈ ss, hasTy t s = true := by
+  induction ws generalizing ss with
+  | nil => simp only [convStrs, Except.ok.injEq] at h; subst h; simp
+  | cons w r ih =>
+    simp only [convStrs] at h
+    cases hc : convStr t w with
+    | unmodelled => rw [hc] at h; cases h
+    | fail e => rw [hc] at h; cases h
+    | ok s0 =>
+      rw [hc] at h
+      cases hr : convStrs t r with
+      | error e => rw [hr] at h; cases h
+      | ok rs =>
+        rw [hr] at h
+        simp only [Except.ok.injEq] at h; subst h
+        intro s hs
+        rcases List.mem_cons.mp hs with h1 | h1
+        · subst h1; exact convStr_hasTy t w _ hc
+        · exact ih rs hr s h1
+
+theorem convLits_hasTy (t : ItemTy) (ls : List Lit) (ss : List Scalar)
+    (h : convLits t ls = .ok (some ss)) : ∀ s ∈ ss, hasTy t s = true := by
+  induction ls generalizing ss with
+  | nil => simp only [convLits, Conv.ok.injEq, Option.some.injEq] at h; subst h; simp
+  | cons l r ih =>
+    simp only [convLits] at h
+    cases hc : convLit t l with
+    | unmodelled => rw [hc] at h; cases h
+    | fail e => rw [hc] at h; cases h
+    | ok o =>
+      rw [hc] at h
+      cases o with
+      | none =>
+        simp only at h
+        split at h <;> cases h
+      | some s0 =>
+        simp only at h
+        cases hr : convLits t r with
+        | unmodelled => rw [hr] at h; cases h
+        | fail e => rw [hr] at h; cases h
+        | ok o2 =>
+          rw [hr] at h
+          cases o2 with
+          | none => cases h
+          | some rs =>
+            simp only [Conv.ok.injEq, Option.some.injEq] at h; subst h
+            intro s hs
+            rcases List.mem_cons.mp hs with h1 | h1
+            · subst h1; exact convLit_hasTy t l _ hc
+            · exact ih rs hr s h1
+
+theorem fallbackParse_typed (fty : FieldTy) (tok : Tok) (v : Val) (h : fallbackParse fty tok = .ok v) :
+    ∃ l, v = mkContainer fty l ∧ ∀ s ∈ l, hasTy fty.itemTy s = true := by
+  unfold fallbackParse at h
+  split at h
+  · rename_i ss hss
+    simp only [Except.ok.injEq] at h
+    exact ⟨ss, h.symm, convStrs_hasTy _ _ _ hss⟩
+  · cases h
+
+/-- **every item of every parsed container is a value of the container's item type** (the type
+    of a `List[T]` / `Tuple[T, ...]`, the FIRST type of a `Tuple[T1, T2, …]`), whatever the token
+    shape: an int field never receives a str item, an enum field only members, … -/
+theorem parseContainerTok_typed (fty : FieldTy) (tok : Tok) (v : Val)
+    (h : parseContainerTok fty tok = .ok v) :
+    ∃ l, v = mkContainer fty l ∧ ∀ s ∈ l, hasTy fty.itemTy s = true := by
+  unfold parseContainerTok at h
+  cases tok with
+  | bare w =>
+    simp only at h
+    split at h
+    · cases h
+    · exact fallbackParse_typed fty _ v h
+    · split at h
+      · cases h
+      · cases h
+      · exact fallbackParse_typed fty _ v h
+      · rename_i s0 hs0
+        simp only [Except.ok.injEq] at h
+        refine ⟨[s0], h.symm, ?_⟩
+        intro s hs; simp only [List.mem_singleton] at hs; subst hs
+        exact convLit_hasTy _ _ _ hs0
+  | spaced ws => exact fallbackParse_typed fty _ v h
+  | comma ws =>
+    simp only at h
+    split at h
+    · cases h
+    · cases h
+    · exact fallbackParse_typed fty _ v h
+    · split at h
+      · cases h
+      · cases h
+      · exact fallbackParse_typed fty _ v h
+      · rename_i ss hss
+        simp only [Except.ok.injEq] at h
+        exact ⟨ss, h.symm, convLits_hasTy _ _ _ hss⟩
+  | bracket sq ws =>
+    simp only at h
+    split at h
+    · cases h
+    · cases h
+    · exact fallbackParse_typed fty _ v h
+    · split at h
+      · cases h
+      · cases h
+      · exact fallbackParse_typed fty _ v h
+      · rename_i ss hss
+        simp only [Except.ok.injEq] at h
+        exact ⟨ss, h.symm, convLits_hasTy _ _ _ hss⟩
+
+theorem mkContainer_inj (fty : FieldTy) (l l' : List Scalar) (h : mkContainer fty l = mkContainer fty l') :
+    l = l' := by
+  unfold mkContainer at h
+  split at h <;> simpa using h
+
+/-- the annotated type of position i -/
+def itemTyAt : FieldTy → Nat → Option ItemTy
+  | .list t, _ => some t
+  | .vtuple t, _ => some t
+  | .tuple ts, i => ts[i]?
+  | .scalar _, _ => none
+
+/-- the full statement: the item at position i is a value of the type annotated for position i … -/
+def PositionTyped : Prop :=
+  ∀ (fty : FieldTy) (tok : Tok) (l : List Scalar), fty.isContainer = true →
+    parseContainerTok fty tok = .ok (mkContainer fty l) →
+    ∀ (i : Nat) (hi : i < l.length) (t : ItemTy), itemTyAt fty i = some t → hasTy t l[i] = true
+
+/-- … is refuted by a heterogeneous tuple (open finding C11-hetero-tuple): `Tuple[str,int]`
+    given `[b,2]` yields `('b', '2')` — a str where an int is annotated -/
+theorem c11_hetero_tuple_witness : ¬ PositionTyped := by
+  intro h
+  have := h (.tuple [.str, .int]) (.bracket true ["b".toList, "2".toList])
+    [.str "b".toList, .str "2".toList] rfl (by decide) 1 (by simp) .int rfl
+  simp [hasTy] at this
+
+/-- the other face of the same defect: `Tuple[int,str]` rejects its own values (every position is
+    parsed by `int`): `[2,b]`, `2 b` and `2,b` are argparse errors -/
+theorem c11_hetero_tuple_reject_witness :
+    parseContainerTok (.tuple [.int, .str]) (.bracket true ["2".toList, "b".toList]) = .error (.exit2 .type)
+    ∧ parseContainerTok (.tuple [.int, .str]) (.spaced ["2".toList, "b".toList]) = .error (.exit2 .type)
+    ∧ parseContainerTok (.tuple [.int, .str]) (.comma ["2".toList, "b".toList]) = .error (.exit2 .type) := by
+  decide
+
+/-- named exclusion: every annotated position has the first position's type -/
+def homogeneous : FieldTy → Bool
+  | .tuple (t :: ts) => ts.all (fun x => decide (x = t))
+  | _ => true
+
+theorem itemTyAt_homogeneous (fty : FieldTy) (hh : homogeneous fty = true) (i : Nat) (t : ItemTy)
+    (h : itemTyAt fty i = some t) : t = fty.itemTy := by
+  cases fty with
+  | scalar t0 => simp [itemTyAt] at h
+  | list t0 => simp only [itemTyAt, Option.some.injEq] at h; exact h.symm
+  | vtuple t0 => simp only [itemTyAt, Option.some.injEq] at h; exact h.symm
+  | tuple ts =>
+    cases ts with
+    | nil => simp [itemTyAt] at h
+    | cons t0 r =>
+      cases i with
+      | zero => simp only [itemTyAt, List.getElem?_cons_zero, Option.some.injEq] at h; exact h.symm
+      | succ j =>
+        simp only [itemTyAt, List.getElem?_cons_succ] at h
+        have hm : t ∈ r := List.mem_of_getElem? h
+        simp only [homogeneous, List.all_eq_true, decide_eq_true_eq] at hh
+        exact hh t hm
+
+/-- **position-typed (partial)**: for `List[T]`, `Tuple[T, ...]` and tuples whose positions all
+    have the same type, every position holds a value of its annotated type -/
+theorem c11_position_typed_partial (fty : FieldTy) (tok : Tok) (l : List Scalar)
+    (hh : homogeneous fty = true)
+    (h : parseContainerTok fty tok = .ok (mkContainer fty l))
+    (i : Nat) (hi : i < l.length) (t : ItemTy) (ht : itemTyAt fty i = some t) :
+    hasTy t l[i] = true := by
+  obtain ⟨l', hl', htyped⟩ := parseContainerTok_typed fty tok _ h
+  have := mkContainer_inj fty l l' hl'
+  subst this
+  rw [itemTyAt_homogeneous fty hh i t ht]
+  exact htyped _ (List.getElem_mem hi)
+
 /-! ### the whole-parse model used by the correspondence check reduces to `runField` -/
 
 def wrap1 : Res (List Val) → Res (List (List Val))
@@ -540,6 +984,80 @@ theorem runCase_single_absent (fty : FieldTy) (n : Nat) (src : DefaultSrc) :
     | some dv =>
       simp only [storedAll, lookupLast, distributeAll]
       cases distribute fty n dv <;> rfl
+
+/-! ### several fields of one class: the phases of a whole parse do not mix the fields up -/
+
+theorem runField_given_ok (fty : FieldTy) (n : Nat) (src : DefaultSrc) (toks : List Tok) (out : List Val)
+    (h : runField fty n src (some toks) = .ok out) :
+    ∃ d vs, setupDefault fty n src = .ok d ∧ argparseValues fty (isRequired src) toks = .ok vs
+      ∧ distribute fty n vs = .ok out := by
+  unfold runField at h
+  cases hs : setupDefault fty n src with
+  | error e => rw [hs] at h; cases h
+  | ok d =>
+    rw [hs] at h
+    simp only at h
+    cases ha : argparseValues fty (isRequired src) toks with
+    | error e => rw [ha] at h; cases h
+    | ok vs => rw [ha] at h; exact ⟨d, vs, rfl, rfl, h⟩
+
+theorem runField_absent_ok (fty : FieldTy) (n : Nat) (src : DefaultSrc) (out : List Val)
+    (h : runField fty n src none = .ok out) :
+    ∃ dv, setupDefault fty n src = .ok (some dv) ∧ distribute fty n dv = .ok out := by
+  unfold runField at h
+  cases hs : setupDefault fty n src with
+  | error e => rw [hs] at h; cases h
+  | ok d =>
+    rw [hs] at h
+    cases d with
+    | none => cases h
+    | some dv => exact ⟨dv, rfl, h⟩
+
+/-- **two fields, both given** (either order on the command line): each field's destinations get
+    exactly what the field alone would give them -/
+theorem runCase_two_given (n : Nat) (f0 f1 : FieldCase) (t0 t1 : List Tok) (o0 o1 : List Val)
+    (h0 : runField f0.fty n f0.src (some t0) = .ok o0)
+    (h1 : runField f1.fty n f1.src (some t1) = .ok o1) :
+    runCase n [f0, f1] [(0, t0), (1, t1)] = .ok [o0, o1]
+    ∧ runCase n [f0, f1] [(1, t1), (0, t0)] = .ok [o0, o1] := by
+  obtain ⟨d0, vs0, hs0, ha0, hd0⟩ := runField_given_ok _ _ _ _ _ h0
+  obtain ⟨d1, vs1, hs1, ha1, hd1⟩ := runField_given_ok _ _ _ _ _ h1
+  constructor <;>
+    simp [runCase, setupAll, hs0, hs1, argparseAll, ha0, ha1, storedAll, lookupLast, distributeAll, hd0, hd1]
+
+/-- **two fields, one absent**: the absent field's destinations get its defaults, the other's
+    get the values — in either declaration position -/
+theorem runCase_two_one_absent (n : Nat) (f0 f1 : FieldCase) (t : List Tok) (o0 o1 : List Val) :
+    (runField f0.fty n f0.src (some t) = .ok o0 → runField f1.fty n f1.src none = .ok o1 →
+      runCase n [f0, f1] [(0, t)] = .ok [o0, o1])
+    ∧ (runField f0.fty n f0.src none = .ok o0 → runField f1.fty n f1.src (some t) = .ok o1 →
+      runCase n [f0, f1] [(1, t)] = .ok [o0, o1]) := by
+  constructor
+  · intro h0 h1
+    obtain ⟨d0, vs0, hs0, ha0, hd0⟩ := runField_given_ok _ _ _ _ _ h0
+    obtain ⟨dv1, hs1, hd1⟩ := runField_absent_ok _ _ _ _ h1
+    simp [runCase, setupAll, hs0, hs1, argparseAll, ha0, storedAll, lookupLast, distributeAll, hd0, hd1]
+  · intro h0 h1
+    obtain ⟨dv0, hs0, hd0⟩ := runField_absent_ok _ _ _ _ h0
+    obtain ⟨d1, vs1, hs1, ha1, hd1⟩ := runField_given_ok _ _ _ _ _ h1
+    simp [runCase, setupAll, hs0, hs1, argparseAll, ha1, storedAll, lookupLast, distributeAll, hd0, hd1]
+
+/-- **an option given twice**: argparse's `store` keeps the LAST occurrence (the earlier one must
+    still be acceptable to `type=`) -/
+theorem runCase_last_wins (fty : FieldTy) (n : Nat) (src : DefaultSrc) (t0 t1 : List Tok) (vs0 : List Val)
+    (h0 : argparseValues fty (isRequired src) t0 = .ok vs0) :
+    runCase n [⟨fty, src⟩] [(0, t0), (0, t1)] = wrap1 (runField fty n src (some t1)) := by
+  unfold runCase runField
+  simp only [setupAll]
+  cases hs : setupDefault fty n src with
+  | error e => rfl
+  | ok d =>
+    simp only [argparseAll, List.getElem?_cons_zero, h0]
+    cases ha : argparseValues fty (isRequired src) t1 with
+    | error e => rfl
+    | ok vs =>
+      simp only [storedAll, lookupLast, ↓reduceIte, distributeAll]
+      cases distribute fty n vs <;> rfl
 
 /-! ### registration order of the merged destinations (`DataclassWrapper.merge`) -/
 
@@ -606,6 +1124,140 @@ theorem c11_registration_order_defaults (root : Bool) (d0 : Str) (i0 : Nat) (reg
   rw [(c11_registration_order root d0 [i0] regs h).2]
   cases root <;> simp [extendDefaults]
 
+/-! ### nested members: the enclosing wrappers merge first, their children pairwise -/
+
+/-- a registered class `P{m: C}` at destination `p`: one child wrapper at `c` with default instances `g` -/
+def parentW (p c : Str) (g : List Nat) : DW := .mk [p] [] [leafW c g]
+
+theorem mergeAll_one_child (root : Bool) (accP accC : List Str) (f : List Nat)
+    (regs : List (Str × Str × List Nat))
+    (hP : (accP ++ regs.map (·.1)).Nodup) (hC : (accC ++ regs.map (·.2.1)).Nodup) :
+    mergeAll root (.mk accP [] [.mk accC f []]) (regs.map (fun r => parentW r.1 r.2.1 r.2.2))
+      = .mk (accP ++ regs.map (·.1)) []
+          [.mk (accC ++ regs.map (·.2.1)) (f ++ (regs.map (·.2.2)).flatten) []] := by
+  induction regs generalizing accP accC f with
+  | nil => simp [mergeAll]
+  | cons r rs ih =>
+    have hdP : r.1 ∉ accP := by
+      intro hm
+      exact (List.nodup_append.mp hP).2.2 r.1 hm r.1 (by simp) rfl
+    have hdC : r.2.1 ∉ accC := by
+      intro hm
+      exact (List.nodup_append.mp hC).2.2 r.2.1 hm r.2.1 (by simp) rfl
+    have hP' : ((accP ++ [r.1]) ++ rs.map (·.1)).Nodup := by simpa using hP
+    have hC' : ((accC ++ [r.2.1]) ++ rs.map (·.2.1)).Nodup := by simpa using hC
+    have := ih (accP ++ [r.1]) (accC ++ [r.2.1]) (f ++ r.2.2) hP' hC'
+    simp only [mergeAll, List.map_cons, List.foldl_cons] at this ⊢
+    have hstep : DW.merge root (.mk accP [] [.mk accC f []]) (parentW r.1 r.2.1 r.2.2)
+        = .mk (accP ++ [r.1]) [] [.mk (accC ++ [r.2.1]) (f ++ r.2.2) []] := by
+      cases root <;>
+        simp [parentW, leafW, DW.merge, mergeChildren, appendNew, hdP, hdC, extendDefaults]
+    rw [hstep, this]
+    simp
+
+/-- **registration order, nested members**: `P{m: C}` registered at `p₀ … p_{n-1}` (P wrappers
+    merged first, e.g. because P has a field of its own): the merged C wrapper has the member
+    destinations `p₀.m … p_{n-1}.m` and their default instances in registration order — any n -/
+theorem c11_registration_order_nested (root : Bool) (p0 c0 : Str) (g0 : List Nat)
+    (regs : List (Str × Str × List Nat))
+    (hP : (p0 :: regs.map (·.1)).Nodup) (hC : (c0 :: regs.map (·.2.1)).Nodup) :
+    mergeAll root (parentW p0 c0 g0) (regs.map (fun r => parentW r.1 r.2.1 r.2.2))
+      = .mk (p0 :: regs.map (·.1)) []
+          [.mk (c0 :: regs.map (·.2.1)) (g0 ++ (regs.map (·.2.2)).flatten) []] := by
+  have := mergeAll_one_child root [p0] [c0] g0 regs (by simpa using hP) (by simpa using hC)
+  simpa [parentW, leafW] using this
+
+/-- which destination holds which value: `zip(self.destinations, values)` -/
+def assign (dests : List Str) (out : List Val) : List (Str × Val) := dests.zip out
+
+/-- **n values, by destination name**: the same class registered at `d₀ … d_{n-1}` and an option
+    given n tokens: the i-th REGISTERED destination is paired with the post-processed parse of the
+    i-th token (part A's order + part B's positions) -/
+theorem c11_n_assigned (root : Bool) (fty : FieldTy) (src : DefaultSrc) (d0 : Str)
+    (regs : List (Str × List Nat)) (toks : List Tok) (out : List Val) (d : Option (List Val))
+    (hnd : (d0 :: regs.map (·.1)).Nodup) (hn : 2 ≤ regs.length + 1) (hk : toks.length = regs.length + 1)
+    (hsetup : setupDefault fty (regs.length + 1) src = .ok d)
+    (hrun : runField fty (regs.length + 1) src (some toks) = .ok out)
+    (i : Nat) (hi : i < regs.length + 1) :
+    ∃ v, parseTok fty (toks[i]'(by omega)) = .ok v
+      ∧ postprocess fty v = .ok (out[i]'(by
+          rw [(c11_n_index fty _ src toks out d hn hk hsetup hrun).1]; exact hi))
+      ∧ (assign (mergeAll root (leafW d0 []) (regs.map (fun r => leafW r.1 r.2))).dests out)[i]?
+          = some ((d0 :: regs.map (·.1))[i]'(by simpa using hi),
+                  out[i]'(by rw [(c11_n_index fty _ src toks out d hn hk hsetup hrun).1]; exact hi)) := by
+  obtain ⟨hlen, hidx⟩ := c11_n_index fty _ src toks out d hn hk hsetup hrun
+  obtain ⟨v, hv, hp⟩ := hidx i (by omega) (by omega)
+  refine ⟨v, hv, hp, ?_⟩
+  rw [(c11_registration_order root d0 [] regs hnd).1]
+  simp only [assign]
+  rw [List.getElem?_eq_getElem (by simp [hlen]; omega)]
+  simp
+
+/-! ### open findings: witnesses -/
+
+/-- the full statement "merging keeps every default instance, in order" … -/
+def DefaultsKept : Prop :=
+  ∀ (root : Bool) (d0 : Str) (f0 : List Nat) (regs : List (Str × List Nat)),
+    (d0 :: regs.map (·.1)).Nodup →
+    (mergeAll root (leafW d0 f0) (regs.map (fun r => leafW r.1 r.2))).defaults
+      = f0 ++ (regs.map (·.2)).flatten
+
+/-- … is refuted for directly registered classes (open finding C11-partial-default-instances):
+    `add_arguments(C, "d0")`, `add_arguments(C, "d1", default=inst)` — d1's instance is dropped -/
+theorem c11_partial_defaults_witness : ¬ DefaultsKept := by
+  intro h
+  have := h true "d0".toList [] [("d1".toList, [1])] (by decide)
+  revert this
+  decide
+
+/-- the other two faces of C11-partial-default-instances: an instance at d0 only is handed to
+    EVERY destination (d1 silently gets d0's value 10 instead of the class default), and instances
+    at 2 of 3 destinations make set-up fail with the packaging AssertionError -/
+theorem c11_partial_defaults_outcomes_witness :
+    runField (.scalar .int) 2 (.parents [.sc (.int 10)]) none = .ok [.sc (.int 10), .sc (.int 10)]
+    ∧ runField (.scalar .int) 3 (.parents [.sc (.int 1), .sc (.int 5)]) none
+        = .error (.raise .assertionError) := by decide
+
+/-- when every registration (or none) carries an instance nothing is lost
+    (`c11_registration_order_defaults`, `c11_absent_parents`); nested wrappers never lose any -/
+theorem c11_defaults_kept_partial (root : Bool) (d0 : Str) (f0 : List Nat) (regs : List (Str × List Nat))
+    (hnd : (d0 :: regs.map (·.1)).Nodup) (hex : root = false ∨ f0 ≠ []) :
+    (mergeAll root (leafW d0 f0) (regs.map (fun r => leafW r.1 r.2))).defaults
+      = f0 ++ (regs.map (·.2)).flatten := by
+  rw [(c11_registration_order root d0 f0 regs hnd).2]
+  unfold extendDefaults
+  rcases hex with h | h
+  · subst h; simp
+  · cases f0 with
+    | nil => exact absurd rfl h
+    | cons a r => simp
+
+/-- the full statement "the merged member destinations follow the registrations: d0.m0, d0.m1,
+    d1.m0, d1.m1" for `S{m0, m1: C}` at d0, d1 … -/
+def SiblingsRegistrationMajor : Prop :=
+  ∀ (sRootsMergeFirst : Bool),
+    (let s0 : DW := .mk ["d0".toList] [] [leafW "d0.m0".toList [], leafW "d0.m1".toList []]
+     let s1 : DW := .mk ["d1".toList] [] [leafW "d1.m0".toList [], leafW "d1.m1".toList []]
+     let cs : List DW := if sRootsMergeFirst then (DW.merge true s0 s1).children
+                         else s0.children ++ s1.children
+     (mergeAll false (cs.headD (leafW [] [])) cs.tail).dests)
+      = ["d0.m0".toList, "d0.m1".toList, "d1.m0".toList, "d1.m1".toList]
+
+/-- … is refuted when S has a field of its own (open finding C11-order-depends-on-own-field): the
+    S wrappers clash first and are merged first, their children pairwise, and the destinations
+    become member-major d0.m0, d1.m0, d0.m1, d1.m1 — so `--fa 1 2 3 4` gives d1.m0 the 2nd value -/
+theorem c11_order_own_field_witness : ¬ SiblingsRegistrationMajor := by
+  intro h
+  have := h true
+  revert this
+  decide
+
+/-- without an own field on S (the member wrappers clash directly) the order IS registration-major -/
+theorem c11_order_without_own_field :
+    (mergeAll false (leafW "d0.m0".toList [])
+      [leafW "d0.m1".toList [], leafW "d1.m0".toList [], leafW "d1.m1".toList []]).dests
+      = ["d0.m0".toList, "d0.m1".toList, "d1.m0".toList, "d1.m1".toList] := by decide
+
 /-! ### non-vacuity: the hypotheses are satisfiable by non-trivial inputs -/
 
 -- c11_n: three destinations, three different int tokens
@@ -636,9 +1288,6 @@ example : runField (.scalar .int) 3 (.parents [.sc (.int 1), .sc (.int 5), .sc (
     = .ok [.sc (.int 1), .sc (.int 5), .sc (.int 1)] := by decide
 example : runField (.list .int) 2 (.parents [.list [.int 1, .int 2], .list [.int 3]]) none
     = .ok [.list [.int 1, .int 2], .list [.int 3]] := by decide
--- default instances at only some destinations: the packaging assertion of the code fails
-example : runField (.scalar .int) 3 (.parents [.sc (.int 1), .sc (.int 5)]) none
-    = .error (.raise .assertionError) := by decide
 -- regression (former D12, repaired by 8cfbe97): a list default of length n is NOT split
 example : runField (.list .int) 2 (.field (some (.list [.int 1, .int 2]))) none
     = .ok [.list [.int 1, .int 2], .list [.int 1, .int 2]] := by decide
@@ -654,6 +1303,47 @@ example : runField (.tuple [.int, .int]) 2 (.field none) (some [.bare "3".toList
 -- c11_whole_containers: mixed token shapes
 example : runField (.list .str) 2 (.field none) (some [.bare "abc".toList, .spaced ["a".toList, "b".toList]])
     = .ok [.list [.str "abc".toList], .list [.str "a".toList, .str "b".toList]] := by decide
+-- runField_length / c11_n_ok: hypotheses satisfiable (three valid tokens of different shapes)
+example : ∀ tok ∈ [Tok.bare "4".toList, .spaced ["5".toList, "6".toList], .bracket true []],
+    ∃ v, parseTok (.list .int) tok = .ok v := by
+  intro tok h
+  simp only [List.mem_cons, List.not_mem_nil, or_false] at h
+  rcases h with rfl | rfl | rfl
+  · exact ⟨.list [.int 4], by decide⟩
+  · exact ⟨.list [.int 5, .int 6], by decide⟩
+  · exact ⟨.list [], by decide⟩
+-- c11_one_enum / c11_one_bool / c11_enum_not_member
+example : runField (.scalar (.enum ["LOW".toList, "MID".toList])) 3 (.field none) (some [.bare "MID".toList])
+    = .ok (List.replicate 3 (.sc (.enum "MID".toList))) := by decide
+example : runField (.scalar .bool) 2 (.field none) (some [.bare "Yes".toList])
+    = .ok [.sc (.bool true), .sc (.bool true)] := by decide
+example : runField (.scalar (.enum ["LOW".toList])) 2 (.field none) (some [.bare "low".toList])
+    = .error (.exit2 .choice) := by decide
+-- parseContainerTok_alpha: hypotheses satisfiable (enum member names)
+example : (∀ w ∈ ["RED".toList, "BLUE".toList], classify w = .alpha)
+    ∧ convStrs (.enum ["RED".toList, "BLUE".toList]) ["RED".toList, "BLUE".toList]
+        = .ok [.enum "RED".toList, .enum "BLUE".toList] := by decide
+-- c11_position_typed_partial: the exclusion leaves the homogeneous tuples, lists and Tuple[T, ...]
+example : homogeneous (.tuple [.int, .int, .int]) = true ∧ homogeneous (.list .str) = true
+    ∧ homogeneous (.tuple [.int, .str]) = false := by decide
+-- runCase_two_given / runCase_two_one_absent / runCase_last_wins
+example : runCase 2 [⟨.scalar .int, .field (some (.sc (.int 1)))⟩, ⟨.list .str, .field none⟩]
+    [(1, [.bare "a".toList, .spaced ["b".toList, "c".toList]]), (0, [.bare "7".toList])]
+    = .ok [[.sc (.int 7), .sc (.int 7)], [.list [.str "a".toList], .list [.str "b".toList, .str "c".toList]]] := by decide
+example : runCase 2 [⟨.scalar .int, .field none⟩] [(0, [.bare "1".toList]), (0, [.bare "2".toList, .bare "3".toList])]
+    = .ok [[.sc (.int 2), .sc (.int 3)]] := by decide
+-- c11_registration_order_nested: P{m: C} at three destinations
+example : mergeAll true (parentW "a".toList "a.m".toList [0])
+    [parentW "b".toList "b.m".toList [1], parentW "c".toList "c.m".toList [2]]
+    = .mk ["a".toList, "b".toList, "c".toList] []
+        [.mk ["a.m".toList, "b.m".toList, "c.m".toList] [0, 1, 2] []] := by
+  simp [mergeAll, parentW, leafW, DW.merge, mergeChildren, appendNew, extendDefaults]
+-- c11_n_assigned: destination names paired with values
+example : assign (mergeAll true (leafW "d0".toList []) [leafW "d1".toList [], leafW "d2".toList []]).dests
+    [.sc (.int 5), .sc (.int 6), .sc (.int 7)]
+    = [("d0".toList, .sc (.int 5)), ("d1".toList, .sc (.int 6)), ("d2".toList, .sc (.int 7))] := by decide
+-- c11_defaults_kept_partial: the exclusion leaves every registration pattern whose first one has an instance
+example : (true = false ∨ ([0] : List Nat) ≠ []) := by decide
 -- c11_registration_order: three registrations
 example : (mergeAll true (leafW "a".toList []) ([("b".toList, []), ("c".toList, [])].map (fun r => leafW r.1 r.2))).dests
     = ["a".toList, "b".toList, "c".toList] := by decide
